@@ -1,11 +1,11 @@
 #!/bin/sh
-# usage: tools/seed_confirm.sh C20 m1 "tests/utils tests/sbfile"
+# usage: [SEED_SRC=/tmp/mut2/out] tools/seed_confirm.sh C20 m1 "tests/utils tests/sbfile" [name under which it is stored, e.g. m3]
 # Confirms a seeded change in a scratch worktree: demo passes without, fails with; named tests pass with the patch.
 # Then stores it under /verif/seeded/<ID>-<m>/ (patch.diff, demo.py, notes.md, confirm.log).
-ID=$1; M=$2; TESTS=$3
-SRC=/tmp/mut/out/$ID/$M
+ID=$1; M=$2; TESTS=$3; N=${4:-$M}
+SRC=${SEED_SRC:-/tmp/mut/out}/$ID/$M
 WT=/tmp/seedwt-$ID-$M
-DST=/verif/seeded/$ID-$M
+DST=/verif/seeded/$ID-$N
 set -e
 git -C /repo worktree add -q --detach $WT HEAD
 cp /venv/lib/python3.12/site-packages/spsdk/__version__.py $WT/spsdk/__version__.py 2>/dev/null || true
@@ -28,4 +28,4 @@ git -C /repo worktree remove --force $WT
 rm -rf /tmp/seedwt-cache-$ID-$M
 cp $SRC/patch.diff $SRC/demo.py $DST/
 [ -f $SRC/notes.md ] && cp $SRC/notes.md $DST/
-echo "RESULT $ID-$M unmodified=$R0 patched=$R1 apply=$A"
+echo "RESULT $ID-$N unmodified=$R0 patched=$R1 apply=$A"
